@@ -85,7 +85,8 @@ let i64_of_z (z : z) : int64 = Int64.of_string ("0u" ^ string_of_z z)
 let fl z = Int64.float_of_bits (i64_of_z z)
 let zf f = z_of_i64u (Int64.bits_of_float f)
 let fo = { f_add = (fun a b -> zf (fl a +. fl b)); f_of_i = (fun i -> zf (float_of_string (string_of_z i)));
-           f_to_i = (fun a -> z_of_string (Printf.sprintf "%Ld" (Int64.of_float (fl a)))); f_eq = (fun a b -> fl a = fl b) }
+           f_to_i = (fun a -> z_of_string (Printf.sprintf "%Ld" (Int64.of_float (fl a)))); f_eq = (fun a b -> fl a = fl b);
+           f_fits = (fun a -> let d = fl a in d >= -9223372036854775808.0 && d < 9223372036854775808.0) }
 
 (* ---- canonical dump, as in the harness *)
 let firstn_key (Node (kl, key, _, _, _, _)) =
